@@ -187,10 +187,10 @@ def announces (iters : List Iter) (d : Nat) : List (Nat × BList × String) :=
 /-- unsolicited multicast responses of daemon `d` that speak for `inst` - its announcements -
     as (iteration, time): packets with a record of the instance and a TTL above 0, sent in an
     iteration that read no datagram -/
-def announcementsOf (iters : List Iter) (pk : List Pkt) (inst : BList) : List (Nat × Nat) :=
+def announcementsOf (iters : List Iter) (pk : List Pkt) (inst : BList) : List (Nat × Nat × Nat × Bool) :=
   ((pk.filter fun p => p.resp && p.dest == "m" &&
       (p.m.answers.any fun r => r.ttl > 0 && (match r.rdata with | .ptr n => lower n == inst | _ => false)) &&
-      (iters.toArray[p.k]?.map fun it => it.rx.isEmpty).getD false).map fun p => (p.k, p.t)).eraseDups
+      (iters.toArray[p.k]?.map fun it => it.rx.isEmpty).getD false).map fun p => (p.k, p.t, p.ifi, p.v4)).eraseDups
 
 /-- is the history free of everything that may legitimately delay or cancel an announcement:
     conflicting datagrams, time jumps, interface changes, unregistration, shutdown, renames -/
@@ -225,16 +225,17 @@ def monitorAnnounced (script : List Cmd) (iters : List Iter) (d : Nat) : Option 
               Intf.validIpOnIntf ip ifIp (SimResponder.maskOctets ip.length i.prefixLen)
           | none => false
     let mine := announcementsOf iters pk full
-    if usable && tr + 2000 ≤ tEnd && !(mine.any fun a => a.2 ≤ tr + 2000) then
+    if usable && tr + 2000 ≤ tEnd && !(mine.any fun a => a.2.1 ≤ tr + 2000) then
       some s!"registration-not-announced-within-two-seconds inst={hexOfBytes full} registered-at={tr}"
     else
       -- the first announcement is repeated one second later (the second token of the event
       -- names the interface differently in the two announcements: not used as a key)
+      -- on every interface and family: "announced at least twice, one second apart"
       mine.findSome? fun a =>
-        let first := !(mine.any fun b => b.1 < a.1)
-        let ta := a.2
-        if first && ta + 1000 ≤ tEnd && !(mine.any fun b => b.2 == ta + 1000) then
-          some s!"no-second-announcement-one-second-later inst={hexOfBytes full} first-at={ta}"
+        let first := !(mine.any fun b => b.1 < a.1 && b.2.2 == a.2.2)
+        let ta := a.2.1
+        if first && ta + 1000 ≤ tEnd && !(mine.any fun b => b.2.1 == ta + 1000 && b.2.2 == a.2.2) then
+          some s!"no-second-announcement-one-second-later inst={hexOfBytes full} if={a.2.2.1} v4={a.2.2.2} first-at={ta}"
         else none
 
 /-! ### C09 -/
